@@ -3,7 +3,11 @@ package props
 import (
 	"fmt"
 	"math/rand"
+	"sort"
 	"strings"
+
+	"github.com/truora/minidyn/interpreter"
+	mtypes "github.com/truora/minidyn/types"
 
 	"verifharness/adapt"
 	"verifharness/model"
@@ -276,6 +280,9 @@ func (p *c02) RunCase(ctx *runner.Ctx) runner.CaseResult {
 	adapter := adapt.Adapters[ctx.Case%2]
 	if ctx.Case%5 == 4 {
 		p.hashOnly(x, r, adapter, ctx)
+		if ctx.Case < 10 {
+			p.nativeSelections(x, adapter)
+		}
 		return x.r
 	}
 	spec := ixSpec("tbl02", true)
@@ -572,6 +579,82 @@ func (p *c02) hashOnly(x *res, r *rand.Rand, adapter string, ctx *runner.Ctx) {
 			f := &mon.Failure{Step: len(hist), Phase: "result", Diffs: ds, Op: op, Got: got.Short(), Prefix: append(append([]adapt.Op{}, hist...), op)}
 			x.failureViolation(adapter, f, spec)
 			return
+		}
+	}
+}
+
+// nativeSelections: with the native interpreter active, a Query / Scan whose key condition or filter is served by a
+// registered Go matcher returns exactly the items the matcher accepts - whether the matcher was registered before the
+// table existed, between CreateTable and the first item, or on the live table through GetNativeInterpreter()
+// (the documented way), on the base table and through an index.
+func (p *c02) nativeSelections(x *res, adapter string) {
+	spec := adapt.TableSpec{Name: "tbl02n", Hash: "h", Range: "r", Billing: "PAY_PER_REQUEST", Indexes: []adapt.IndexSpec{{Name: "gsi1", Hash: "g"}}}
+	items := []val.Item{}
+	for i, v := range []string{"keep", "drop", "keep", "drop", "keep"} {
+		items = append(items, val.Item{"h": val.Str([]string{"p", "q"}[i%2]), "r": val.Str(fmt.Sprint(i)), "g": val.Str("x"), "v": val.Str(v)})
+	}
+	str := func(it map[string]*mtypes.Item, a string) string {
+		if it[a] == nil || it[a].S == nil {
+			return ""
+		}
+		return *it[a].S
+	}
+	register := func(n *interpreter.Native) {
+		n.AddMatcher(spec.Name, interpreter.ExpressionTypeFilter, "KEEP :x", func(it map[string]*mtypes.Item, _ map[string]*mtypes.Item) bool { return str(it, "v") == "keep" })
+		n.AddMatcher(spec.Name, interpreter.ExpressionTypeKey, "PARTITION :x", func(it map[string]*mtypes.Item, vs map[string]*mtypes.Item) bool { return str(it, "h") == str(vs, ":x") })
+		n.AddMatcher(spec.Name, interpreter.ExpressionTypeKey, "INDEXED :x", func(it map[string]*mtypes.Item, vs map[string]*mtypes.Item) bool { return str(it, "g") == str(vs, ":x") })
+	}
+	for _, when := range []string{"before-create", "after-create", "on-the-live-table"} {
+		cl := adapt.New(adapter)
+		nc := nativeOf(cl)
+		nc.activate()
+		if when == "before-create" {
+			register(nc.getInterp())
+		}
+		cl.Do(createOp(spec))
+		if when == "after-create" {
+			register(nc.getInterp())
+		}
+		for _, it := range items {
+			cl.Do(adapt.Op{Kind: adapt.OpPut, Table: spec.Name, Item: it})
+		}
+		if when == "on-the-live-table" {
+			register(nc.getInterp())
+		}
+		reads := []struct {
+			name string
+			op   adapt.Op
+			want func(val.Item) bool
+		}{
+			{"scan+filter", adapt.Op{Kind: adapt.OpScan, Table: spec.Name, Filter: "KEEP :x", Values: val.Item{":x": val.Str("p")}}, func(it val.Item) bool { return it["v"].Str == "keep" }},
+			{"query", adapt.Op{Kind: adapt.OpQuery, Table: spec.Name, KeyCnd: "PARTITION :x", Values: val.Item{":x": val.Str("p")}}, func(it val.Item) bool { return it["h"].Str == "p" }},
+			{"query+filter", adapt.Op{Kind: adapt.OpQuery, Table: spec.Name, KeyCnd: "PARTITION :x", Filter: "KEEP :x", Values: val.Item{":x": val.Str("q")}}, func(it val.Item) bool { return it["h"].Str == "q" && it["v"].Str == "keep" }},
+			{"index-query+filter", adapt.Op{Kind: adapt.OpQuery, Table: spec.Name, Index: "gsi1", KeyCnd: "INDEXED :x", Filter: "KEEP :x", Values: val.Item{":x": val.Str("x")}}, func(it val.Item) bool { return it["v"].Str == "keep" }},
+		}
+		for _, rd := range reads {
+			got := cl.Do(rd.op)
+			x.r.Evals++
+			x.r.Counters["reads_selected_by_registered_matchers"]++
+			x.fp(true, "%s|native-selection|%s|%s", adapter, when, rd.name)
+			want := []string{}
+			for _, it := range items {
+				if rd.want(it) {
+					want = append(want, it.Canon())
+				}
+			}
+			have := []string{}
+			for _, it := range got.Items {
+				have = append(have, it.Canon())
+			}
+			sort.Strings(want)
+			sort.Strings(have)
+			wit := map[string]interface{}{"adapter": adapter, "matchers_registered": when, "request": rd.op, "outcome": got}
+			switch {
+			case got.Class == adapt.ClsRuntime:
+				x.viol("runtime-panic", got.Site, fmt.Sprintf("[%s] %s served by registered matchers: panic %s", adapter, rd.name, got.Msg), wit)
+			case got.Class != adapt.ClsOK || strings.Join(have, "|") != strings.Join(want, "|"):
+				x.viol("search-not-as-the-matcher-selects", rd.name+"/"+when, fmt.Sprintf("[%s] %s with matchers registered %s: class %s (%s), items %v; the registered matchers accept %v", adapter, rd.name, when, got.Class, got.Msg, have, want), wit)
+			}
 		}
 	}
 }
